@@ -16,11 +16,13 @@ IsEvent(a) == l <= Len(Ev) /\ Ev[l].a = a /\ l' = l + 1 /\ UNCHANGED tid
 RECURSIVE Dec(_)
 Dec(k) == IF k < 10 THEN <<48 + k>> ELSE Dec(k \div 10) \o <<48 + (k % 10)>>
 
-EnvOK(o) == /\ o.method = env'.method /\ o.script = env'.script /\ o.path = env'.path /\ o.query = env'.query
+EnvOK(o) == /\ "method" \in DOMAIN o
+            /\ o.method = env'.method /\ o.script = env'.script /\ o.path = env'.path /\ o.query = env'.query
             /\ o.name = env'.name /\ o.port = env'.port /\ o.protocol = env'.protocol /\ o.scheme = env'.scheme
             /\ o.ctype = env'.ctype /\ o.clen = env'.clen /\ o.input = env'.input
             /\ SeqToSet(o.http) = env'.http /\ Len(o.http) = Cardinality(env'.http)
-RespOK(o) == /\ o.code = resp'.code /\ o.reason = resp'.reason /\ o.body = resp'.body
+RespOK(o) == /\ "reason" \in DOMAIN o
+             /\ o.code = resp'.code /\ o.reason = resp'.reason /\ o.body = resp'.body
              /\ \A g \in resp'.groups : InSeq(o.groups, g)
              /\ \A i \in 1..Len(o.groups) :
                     \/ o.groups[i] \in resp'.groups
